@@ -26,7 +26,17 @@ package switchr
 //@   requires nonnil(f) && f.data != nil
 //@   modifies f.data[1:3]
 
-// Label switching changes only TTL, flow flags and the switch block of a frame.
+// Offering a frame to the router's input is recorded on the frame (ghost).
+//@ func Switch.escalateFrame
+//@   requires nonnil(f)
+//@   modifies nothing
+//@   update when true: f.escalated = true
+
+// Label switching changes only TTL, flow flags and the switch block of a frame. A frame that ends here - no switch
+// block, or the label at the front of its block is zero - is offered to the router whatever its TTL is (the TTL
+// limits link crossings, and the last crossing is behind it).
 //@ func Switch.handleFrame
-//@   requires nonnil(f) && f.data != nil
+//@   requires nonnil(f) && f.data != nil && !f.escalated
+//@   ensures frames-that-end-here-are-handed-up [C10]: old(f.SrcIP()) != s.instance.Identity().IP && old(f.messageIndex) == 49 ==> f.escalated
+//@   ensures frames-whose-block-ends-here-are-handed-up [C10]: old(f.SrcIP()) != s.instance.Identity().IP && old(f.messageIndex) > 49 && old(f.recvLink) != nil && err == nil && nextHopLabel == 0 ==> f.escalated
 //@   ensures forwarding-preserves-content [C10]: len(f.data) == old(len(f.data)) && (forall i int :: 0 <= i && i < len(f.data) && i != 1 && i != 2 && !(49 <= i && i < f.messageIndex) ==> f.data[i] == old(f.data[i]))
